@@ -8,7 +8,7 @@
 From Coq Require Import List NArith ZArith Bool Lia ZifyBool ZifyNat ZifyN.
 From ApiFu Require Import Base.Sexp Lex.ListAux Lex.Utf8 Lex.LexModel Lex.LexSpec Lex.LexRel Lex.Utf8Proofs
   Lex.LexProgress Lex.LexSync Lex.LexSpecFacts Lex.LexClasses Lex.LexStrings Lex.LexStep Lex.LexRefine
-  Lex.LexErrors Lex.LexPrefixSpec.
+  Lex.LexErrors Lex.LexPrefixSpec Lex.LexMode.
 Import ListNotations.
 Open Scope Z_scope.
 
@@ -202,4 +202,20 @@ Proof.
   - revert Hl. induction Hf as [|e0 k0 es0 ks0 (s0 & Hb0 & _) Hf IH]; intro Hl; [constructor|].
     inversion Hl; subst. constructor; [|apply IH; assumption].
     split; [assumption|]. apply (boundary_sync _ Hsc _ _ Hb0).
+Qed.
+
+(** the same for what the parser sees (mode 0): the non-ignored agreed tokens come first *)
+Corollary lex_agrees_before_failure_mode0 : forall bs cps stoks e ts es,
+  utf8_decode bs = Some cps -> spec_lex cps = (stoks, e) -> lex false bs = Done ts es ->
+  exists rest ns,
+    ts = significant_tokens (map token_of_stoken (agreed cps stoks (is_end_error e))) ++ rest /\
+    es = map (fun n => advance_pos (1, 1) n cps) ns /\
+    Forall (fun n => (agreed_count (agreed cps stoks (is_end_error e)) <= n <= length cps)%nat) ns.
+Proof.
+  intros bs cps stoks e ts es Hd HS H.
+  destruct (lex_progress true bs) as (ts1 & es1 & H1 & _).
+  pose proof (lex_mode _ _ _ H1) as H0. rewrite H in H0. inversion H0; subst ts es1.
+  destruct (lex_agrees_before_failure _ _ _ _ _ _ Hd HS H1) as (rest & ns & HT & HE & HF).
+  exists (significant_tokens rest), ns. split; [|split; assumption].
+  rewrite HT. unfold significant_tokens. apply filter_app.
 Qed.
